@@ -14,7 +14,7 @@ RULE = (
     "[plus a small 'cli_wiring' part: generated `taskiq worker` flag sets parsed by the real WorkerArgs.from_cli and turned into a receiver by the real start_listen(); the acknowledge type selected with --ack-type (any case; default when_saved) is the one the worker's receiver uses] "
     "Hypothesis-generated scenarios: 1-8 ackable messages (sync or async ack callback; a few malformed/unknown), "
     "three acknowledge types, async bodies optionally with an asynchronous clean-up in `finally` (they finish only some time after a timeout cancels them), outcomes return / Exception / BaseException subclasses / timeout label exceeded / "
-    "no-result / result-backend failure on a generated subset of saves, save latency, A in 1..4, P in 0..3, optional "
+    "no-result / result-backend failure on a generated subset of saves, save latency, A in 1..4, P in 0..3, max_tasks_to_execute in None|1..4, optional "
     "stop. Oracle over the trace of the real Receiver: ack count == 1 per well-formed message (<=1 for skipped); "
     "its position relative to enter / exit / save_end|save_failed per acknowledge type; and, for EVERY prefix of "
     "the trace (= crash after that event), no message is acked whose configured point is not inside the prefix. "
@@ -32,7 +32,6 @@ def scenario() -> Any:
         d["msgs"] = cm.sort_msgs(d["msgs"])
         if not d.pop("has_stop"):
             d["stop"] = None
-        d["N"] = None
         d["W"] = None
         d["ends"] = True
         d["fail_saves"] = sorted(d["fail_saves"])
@@ -43,7 +42,7 @@ def scenario() -> Any:
     msg = cm.message(kinds=("async", "async", "async", "async", "sync", "bad", "unknown"),
                      acks=("sync", "async", "future", "deferred"), timeouts=(None, None, None, 0.3, 1, "0.35"), cleanups=(0, 0, 0, 0.2))
     return st.fixed_dictionaries({
-        "A": st.integers(1, 4), "P": st.integers(0, 3),
+        "A": st.integers(1, 4), "P": st.integers(0, 3), "N": st.sampled_from([None, None, None, 1, 2, 3, 4]),
         "ack_type": st.sampled_from(["when_received", "when_executed", "when_saved"]),
         "msgs": st.lists(msg, min_size=1, max_size=8),
         "stop": cm.times(), "has_stop": st.sampled_from([False, False, True]),
